@@ -88,6 +88,22 @@ def check_revcomp_level(spec, ctx):
         ctx.fail("revcomp_level:reverse_complement_raises", repr(e)[:100])
         return
     ctx.label("level_made_by_reverse_complement")
+    # the sequences themselves answer the ancestor questions (own type counted only when asked to)
+    for nm_, sq_ in (("placed_sequence", lvl1), ("its_reverse_complement", rc)):
+        ctx.eq("revcomp_level:%s:has_chromosome_ancestor" % nm_, sq_.has_ancestor_of_type("chromosome"), True)
+        # (the reverse complement carries the type it was given - none here - not the type of the sequence it was made from)
+        ctx.eq("revcomp_level:%s:has_own_type" % nm_, (sq_.has_ancestor_of_type("contig"), sq_.has_ancestor_of_type("contig", include_self=False)), (sq_ is lvl1, False))
+        ctx.eq("revcomp_level:%s:has_absent_ancestor" % nm_, sq_.has_ancestor_of_type("plasmid"), False)
+        try:
+            anc = sq_.first_ancestor_of_type("chromosome")
+            ctx.eq("revcomp_level:%s:first_chromosome_ancestor" % nm_, (anc.id, str(anc.sequence_type.value if hasattr(anc.sequence_type, "value") else anc.sequence_type)), (tag + "L0", "chromosome"))
+        except BioCantorException as e:
+            ctx.fail("revcomp_level:%s:first_ancestor_raises" % nm_, repr(e)[:100])
+        try:
+            sq_.first_ancestor_of_type("plasmid")
+            ctx.fail("revcomp_level:%s:absent_ancestor_answered" % nm_)
+        except NoSuchAncestorException:
+            pass
     if len(rm.sorted_blocks(pl["blocks"])) >= 2:
         ctx.label("reverse_complement_of_a_multiblock_placement")
     L = len(s1)
